@@ -90,6 +90,13 @@ class Exchange:
         rec["answered"] = True
         return rec, plan
 
+    @staticmethod
+    def _mark(js, plan):
+        """report-level error code of an execution report (the matcher / service failed for the whole request)"""
+        if plan.get("report_error"):
+            js["errorCode"] = plan["report_error"]
+        return js
+
     def _outcome(self, plan, i):
         oc = plan.get("outcomes")
         if oc and i < len(oc) and oc[i]:
@@ -131,7 +138,7 @@ class Exchange:
                 rep["errorCode"] = oc.get("error", "ERROR_IN_ORDER")
             reports.append(rep)
         st = "SUCCESS" if all(r["status"] == "SUCCESS" for r in reports) else ("TIMEOUT" if any(r["status"] == "TIMEOUT" for r in reports) else "FAILURE")
-        js = {"marketId": market_id, "status": st, "customerRef": customer_ref, "instructionReports": reports}
+        js = self._mark({"marketId": market_id, "status": st, "customerRef": customer_ref, "instructionReports": reports}, plan)
         self.place_memo[customer_ref] = js
         rec["reports"] = reports
         if self.remember:
@@ -177,7 +184,7 @@ class Exchange:
         st = "SUCCESS" if all(r["status"] == "SUCCESS" for r in reports) else "FAILURE"
         rec["reports"] = returned
         rec["all_reports"] = reports
-        js = dict(marketId=market_id, status=st, customerRef=customer_ref, instructionReports=copy.deepcopy(returned))
+        js = self._mark(dict(marketId=market_id, status=st, customerRef=customer_ref, instructionReports=copy.deepcopy(returned)), plan)
         if self.remember:
             self.memo[("CANCEL", customer_ref)] = (resources.CancelOrders, js)
         return resources.CancelOrders(**copy.deepcopy(js), elapsed_time=0.01)
@@ -201,7 +208,7 @@ class Exchange:
             reports.append(rep)
         st = "SUCCESS" if all(r["status"] == "SUCCESS" for r in reports) else "FAILURE"
         rec["reports"] = reports
-        js = dict(marketId=market_id, status=st, customerRef=customer_ref, instructionReports=copy.deepcopy(reports))
+        js = self._mark(dict(marketId=market_id, status=st, customerRef=customer_ref, instructionReports=copy.deepcopy(reports)), plan)
         if self.remember:
             self.memo[("UPDATE", customer_ref)] = (resources.UpdateOrders, js)
         return resources.UpdateOrders(**copy.deepcopy(js), elapsed_time=0.01)
@@ -257,7 +264,7 @@ class Exchange:
             reports.append({"status": status, "cancelInstructionReport": crep, "placeInstructionReport": prep})
         st = "SUCCESS" if all(r["status"] == "SUCCESS" for r in reports) else "FAILURE"
         rec["reports"] = reports
-        js = dict(marketId=market_id, status=st, customerRef=customer_ref, instructionReports=copy.deepcopy(reports))
+        js = self._mark(dict(marketId=market_id, status=st, customerRef=customer_ref, instructionReports=copy.deepcopy(reports)), plan)
         if self.remember:
             self.memo[("REPLACE", customer_ref)] = (resources.ReplaceOrders, js)
         return resources.ReplaceOrders(**copy.deepcopy(js), elapsed_time=0.01)
@@ -268,7 +275,10 @@ class Exchange:
         ot = ins["orderType"]
         if ot == "LIMIT":
             lo = ins["limitOrder"]
-            price, size, pers, liab = lo["price"], lo["size"], lo.get("persistenceType") or "LAPSE", 0.0
+            price, size, pers, liab = lo["price"], lo.get("size"), lo.get("persistenceType") or "LAPSE", 0.0
+            if size is None and lo.get("betTargetType"):
+                # no stake given: the exchange works it out from the bet target
+                size = round(lo["betTargetSize"] / (price if lo["betTargetType"] == "PAYOUT" else (price - 1.0)), 2)
         elif ot == "LIMIT_ON_CLOSE":
             lo = ins["limitOnCloseOrder"]
             price, size, pers, liab = lo["price"], 0.0, "MARKET_ON_CLOSE", lo["liability"]
